@@ -74,6 +74,12 @@ class Ctx:
         os.makedirs(self.run_dir, exist_ok=True)
         os.makedirs(os.path.join(VERIF, "replays"), exist_ok=True)
         import glob
+        self.replay_signature = None
+        if replay and os.path.exists(replay):
+            try:
+                self.replay_signature = json.load(open(replay)).get("signature")
+            except Exception:
+                pass
         for old in glob.glob(os.path.join(VERIF, "replays", f"{pid}-*.json")):
             os.remove(old)
         self.violations = []          # (signature dict, what, replay payload)
@@ -173,9 +179,9 @@ class Ctx:
             return False
         return True
 
-    def gv(self, sub, extra=(), timeout=3000):
+    def gv(self, sub, extra=(), timeout=3000, scratch=None):
         cmd = [GV, sub, "--seed", str(self.seed), "--tier", self.tier, "--out", self.run_dir] + list(extra)
-        env = dict(ENV, GV_SCRATCH=os.path.join(CACHE, "scratch"), GV_VERIF=VERIF,
+        env = dict(ENV, GV_SCRATCH=scratch or os.path.join(CACHE, "scratch"), GV_VERIF=VERIF,
                    GV_REPO=os.environ.get("GV_REPO", "/repo"))
         p = subprocess.run(cmd, env=env, stdout=subprocess.PIPE, stderr=subprocess.STDOUT, text=True, timeout=timeout)
         if p.returncode != 0:
@@ -214,6 +220,9 @@ class Ctx:
 
     # ---------------------------------------------------------------- finish
     def finish(self, level, coverage, trusted_base, checker_cmd):
+        if self.replay_signature is not None:
+            # replay: re-run the check and keep only the violation recorded in the replay file
+            self.violations = [v for v in self.violations if v[0] == self.replay_signature]
         lines = []
         for h in self.known_hits:
             lines.append(f"KNOWN-FINDING: property={self.pid} {h['what']} (hit {h['count']}x)")
